@@ -24,9 +24,9 @@ import (
 func TestVerifC04(t *testing.T) {
 	vfMain(t, vfCheck{
 		ID: "C04", Level: "fault_enumeration",
-		Rule:        "13 scenarios (N concurrent single calls; one read call served by several short replies; concurrent and sequential ReadAt / WriteTo / WriteAt / ReadFrom mid-transfer; callers that keep issuing requests; raw dispatchRequest ledger) x fault kinds {server->client stream EOF at byte n, error at byte n (a transport error, and io.ErrClosedPipe), k-th client->server Write call fails with the connection reset, k-th Write fails one-sided, also on a transport whose Close leaves the reply stream open, k-th Write delivered but reported failed after the reply arrived}; quick: every reply-frame boundary +-1 and a seeded 12% of the interior offsets, thorough: every offset 0..T (streams longer than 2500 bytes: every offset of the first 1200 bytes and a seeded stride after) and every write index. A class is (scenario, fault kind, position bucket); non-trivial when calls were in flight at the moment of the fault.",
+		Rule:        "13 scenarios (N concurrent single calls; one read call served by several short replies; concurrent and sequential ReadAt / WriteTo / WriteAt / ReadFrom mid-transfer; callers that keep issuing requests; raw dispatchRequest ledger) x 11 fault kinds {server->client stream EOF at byte n, the stream ending right behind a reply while the caller has not started to wait yet, error at byte n (a transport error, and io.ErrClosedPipe), k-th client->server Write call fails with the connection reset, k-th Write fails one-sided, also on a transport whose Close leaves the reply stream open, k-th Write delivered but reported failed after the reply arrived}; quick: every reply-frame boundary +-1 and a seeded 12% of the interior offsets, thorough: every offset 0..T (streams longer than 2500 bytes: every offset of the first 1200 bytes and a seeded stride after) and every write index. A class is (scenario, fault kind, position bucket); non-trivial when calls were in flight at the moment of the fault.",
 		Assumptions: []string{"'bounded time' is decided as 'no stuck state' (every goroutine parked with nothing able to wake it), not as a latency bound", "the peer is scripted, so which replies were completely delivered before byte n is known exactly", "race detector on"},
-		Units:       func(tier vfTier, seed uint64) int { return 13 * 10 },
+		Units:       func(tier vfTier, seed uint64) int { return 13 * 11 },
 		Shards: func(tier vfTier) int {
 			// 14: coprime with the 13 scenarios, so that the ten units of one (slow) scenario do not all land in one child
 			return 14
@@ -262,6 +262,7 @@ type c04Obs struct {
 	inflightAtFault int
 	handshake       int64
 	fired           bool
+	cutPos          int64 // absolute offset in the reply stream at which a fault kind that chooses it itself cut the stream
 }
 
 func c04RunOnce(u *vfUnit, sc c04Scenario, fault *c04Fault, hookSeed uint64) c04Obs {
@@ -319,6 +320,7 @@ func c04RunOnce(u *vfUnit, sc c04Scenario, fault *c04Fault, hookSeed uint64) c04
 		}
 	})
 	var lost atomic.Bool
+	var cutAt atomic.Int64
 	if fault != nil {
 		onCut := func() { lost.Store(true); fired.Store(true) }
 		// the value the failing transport reports: drawn from the pool by the fault position (a failure is a
@@ -369,6 +371,37 @@ func c04RunOnce(u *vfUnit, sc c04Scenario, fault *c04Fault, hookSeed uint64) c04
 				lost.Store(true)
 				fired.Store(true)
 			})
+		case "s2c-eof-before-the-caller-waits":
+			// the k-th request is written and answered, and the reply stream ends right behind the answer, all before
+			// the transport's Write returns to the caller: when the caller starts to wait, its reply is there and the
+			// connection is gone. A reply that was received completely belongs to its caller.
+			ctl.LateFailWrite(vfC2S, int(fault.pos), nil, func() {
+				// (the request is with the peer now) wait until the reply stream has grown and is quiet again: the
+				// answer to this request, and to whatever else was outstanding, has been received
+				start := ctl.Delivered(vfS2C)
+				last, stable := start, 0
+				for spin := 0; spin < 40000 && !(stable > 400 && last > start); spin++ {
+					runtime.Gosched()
+					if d := ctl.Delivered(vfS2C); d != last {
+						last, stable = d, 0
+					} else {
+						stable++
+					}
+				}
+				cut := ctl.Delivered(vfS2C)
+				cutAt.Store(cut)
+				ctl.CutAfter(vfS2C, cut, nil, nil)
+				for spin := 0; spin < 20000; spin++ {
+					select {
+					case <-c.clientConn.closed:
+						spin = 1 << 30
+					default:
+						runtime.Gosched()
+					}
+				}
+				lost.Store(true)
+				fired.Store(true)
+			})
 		case "c2s-writefail-reader-survives":
 			// two independent one-way streams: the request stream fails, and closing the transport afterwards does
 			// not end the reply stream (the peer does not hang up either until the very end)
@@ -404,6 +437,7 @@ func c04RunOnce(u *vfUnit, sc c04Scenario, fault *c04Fault, hookSeed uint64) c04
 	obs.W = ctl.Writes(vfC2S) - handshakeW
 	// calls started after the loss
 	obs.fired = fired.Load()
+	obs.cutPos = cutAt.Load()
 	if fault != nil && !obs.fired && strings.HasPrefix(fault.kind, "s2c") {
 		// the stream was shorter than in the dry run and the cut position was never reached: the cut
 		// takes effect now (the client reader is parked at the end of the stream)
@@ -473,7 +507,7 @@ func c04Run(u *vfUnit) {
 	r := u.Rng
 	scs := c04Scenarios()
 	sc := scs[u.Index%len(scs)]
-	kind := []string{"s2c-eof", "s2c-error", "c2s-reset", "c2s-writefail", "c2s-reset-ioEOF", "c2s-writefail-ioEOF", "s2c-eof-writer-survives", "s2c-closed-pipe", "c2s-writefail-reader-survives", "c2s-write-late-error"}[(u.Index/len(scs))%10]
+	kind := []string{"s2c-eof", "s2c-error", "c2s-reset", "c2s-writefail", "c2s-reset-ioEOF", "c2s-writefail-ioEOF", "s2c-eof-writer-survives", "s2c-closed-pipe", "c2s-writefail-reader-survives", "c2s-write-late-error", "s2c-eof-before-the-caller-waits"}[(u.Index/len(scs))%11]
 	u.SetAdd("scenarios", sc.name)
 	dry := c04RunOnce(u, sc, nil, r.Uint64())
 	label0 := sc.name + "/no-fault"
@@ -493,7 +527,7 @@ func c04Run(u *vfUnit) {
 	}
 	// fault positions
 	var positions []int64
-	if strings.HasPrefix(kind, "s2c") {
+	if strings.HasPrefix(kind, "s2c") && kind != "s2c-eof-before-the-caller-waits" {
 		T := dry.T
 		dry.frames.mu.Lock()
 		bounds := map[int64]bool{0: true, T: true}
@@ -581,6 +615,10 @@ func c04Run(u *vfUnit) {
 		u.Count("fault_runs", 1)
 		obs := c04RunOnce(u, sc, fault, r.Uint64())
 		w := map[string]any{"scenario": sc.name, "fault": kind, "position": pos, "unit": u.Index}
+		opos := pos // the position in the reply stream behind which nothing was delivered
+		if kind == "s2c-eof-before-the-caller-waits" {
+			opos = obs.cutPos - obs.handshake
+		}
 		if !obs.fired && obs.stuck == "" {
 			u.Count("faults_not_reached", 1)
 			continue
@@ -619,7 +657,7 @@ func c04Run(u *vfUnit) {
 		if strings.HasPrefix(kind, "s2c") {
 			hs := obs.handshake
 			for i, e := range obs.frames.ends {
-				if e-hs <= pos {
+				if e-hs <= opos {
 					if p, ok := obs.frames.req[obs.frames.ids[i]]; ok {
 						delivered[p] = true
 					}
@@ -649,7 +687,7 @@ func c04Run(u *vfUnit) {
 				obs.frames.mu.Lock()
 				got := 0
 				for i, e := range obs.frames.ends {
-					if e-obs.handshake <= pos {
+					if e-obs.handshake <= opos {
 						got += obs.frames.dlen[i]
 					}
 				}
